@@ -16,6 +16,7 @@ type batchGen struct {
 	PPreErr    int // per-mille: an item is a pre-made error Result
 	Waits      bool
 	Fb         bool
+	LiveDeadline bool // sometimes give the run a context deadline that (usually) does not expire
 	Rerun      bool // sometimes reconfigure the same node object and run it a second time
 	Gated      int  // 0 never, 1 always, 2 either
 	PrepForms  []int
@@ -93,6 +94,11 @@ func (g batchGen) gen(rt *rapid.T) BatchSc {
 		for i := 0; i < ns; i++ {
 			b.Sched = append(b.Sched, rapid.IntRange(0, 15).Draw(rt, "sched"))
 		}
+	}
+	if g.LiveDeadline && b.WaitMs > 0 && rapid.Bool().Draw(rt, "livedl") {
+		// somewhere between one wait and the longest conceivable run
+		hi := b.WaitMs*b.budget()*(b.n()+1) + 100
+		b.DeadlineMs = rapid.IntRange(b.WaitMs+1, hi).Draw(rt, "deadline")
 	}
 	if g.Rerun && uniform(rt, 3, "rerun") == 0 {
 		g2 := g
